@@ -112,7 +112,7 @@ Indices == (0..NSlots) \cup {200, 255}
 \* field mutations (full length, optional tail so that lying length fields can be "satisfied")
 FieldFrames ==
     { Reply(src, et, pr, lf, ix, tl) :
-        src \in Srcs, et \in {34980, 2048, 34981}, pr \in {0, 1, 4}, lf \in LenFields,
+        src \in Srcs, et \in {34980, 2048, 34981}, pr \in {0, 1, 4, 9, 15}, lf \in LenFields,
         ix \in Indices, tl \in {0, Cap} }
 
 \* every truncation of the well-formed reply for every index
